@@ -194,6 +194,17 @@ add("C17", "CH (+ concrete diff)",
     "Rule sets per API from menus (4 x 3 x 3); where the API defines a clashing IAM RPC both readings of 'yield' (per RPC / "
     "all-or-nothing) are accepted for the non-clashing IAM RPCs. Calling the mixin methods is outside the claim.")
 
+add("C14", "CH+RX (+ concrete diff)",
+    "CrossHair (z3) enumeration with solver-proved exhaustion over the real Snippet segment parser on symbolic marker "
+    "layouts; z3 regex inclusion for the region-tag format; concrete AST/text diff of emitted samples",
+    "Bookkeeping clause: for ALL marker layouts of a 12/16-line sample the six segments and full_snippet are exactly the line "
+    "ranges between the markers; every tag the generator can build from identifier-shaped names is in the documented "
+    "format. Per program: one sync+async sample per RPC, unique matching tags, samples compile, request set-up assigns only "
+    "real field paths, docstring snippet and metadata entry match the file (concrete).",
+    "DESIGN.md section 5 C14",
+    "Executing the samples against a server and the metadata's parameter/result types are outside the claim; the "
+    "docstring comparison ignores blank lines (the formatter may drop them inside string literals, C20).")
+
 PENDING = {}
 
 
